@@ -123,7 +123,7 @@ def array_kind_decided_by_all_items(repo, rep):
                             dotted(t.func) == 'isinstance' and \
                             len(t.args) == 2 and \
                             norm(t.args[0]) == norm(c.generators[0].target):
-                        tt = t.args[1]
+                        tt = one_step(t.args[1])
                         tys = {norm(x) for x in (
                             tt.elts if isinstance(tt, ast.Tuple) else [tt])}
                         if tys and tys <= REFS:
